@@ -102,7 +102,15 @@ class EpollSelect(object):
     retrl = []
     retwl = []
     retxl = []
+    xfds = set(o.fileno() if hasattr(o, "fileno") else o for o in xl)
     for (fd, event) in events:
+      if event & (select.EPOLLERR|select.EPOLLHUP) and fd not in xfds:
+        # epoll reports these unasked.  Like select(), tell only those who
+        # listed the fd in xl; others see it readable (an error: and writable)
+        if fd in self.lastrl_set: event |= select.EPOLLIN
+        if fd in self.lastwl_set and event & select.EPOLLERR:
+          event |= select.EPOLLOUT
+        event &= ~(select.EPOLLERR|select.EPOLLHUP)
       if event & (select.EPOLLIN|select.EPOLLPRI|select.EPOLLRDNORM|select.EPOLLRDBAND):
         retrl.append(self.fd_to_obj[fd])
       if event & (select.EPOLLOUT|select.EPOLLWRNORM|select.EPOLLWRBAND):
